@@ -33,7 +33,7 @@ if mods:
         'LbzVerif.Props.C08.fastpath_refills',
         'LbzVerif.Props.C08.selectors_enough',
     ])
-inproc.run_libs(ck, ['w10_mtf', 'w11_prefix', 'w12_emit'])
+inproc.run_libs(ck, ['w10_mtf', 'w11_prefix', 'w12_emit', 'w15_retrieve'])
 exe = ck.build_lbzip2('lbzip2-asan', asan=True, ndebug=False)
 rng = ck.rng
 evals = nontriv = 0
